@@ -591,6 +591,23 @@ func (s *Server) ClientCert(c Client) (*tls.Certificate, error) {
 	case "self":
 		der, _ := selfSigned(ck.Pub, ck.Priv, ck.Pkix)
 		return &tls.Certificate{Certificate: [][]byte{der}, PrivateKey: signer}, nil
+	case "leadOwn":
+		// a throwaway self-signed end-entity certificate for a key the client holds, followed by ck's genuine chain
+		tpub, tpriv, _ := ed25519.GenerateKey(rand.Reader)
+		tpkix, _ := x509.MarshalPKIXPublicKey(tpub)
+		tpl := &x509.Certificate{SerialNumber: big.NewInt(time.Now().UnixNano()), Subject: pkix.Name{CommonName: "throwaway"}, SubjectKeyId: tpkix,
+			DNSNames: []string{nodeenrollment.CommonDnsName}, ExtKeyUsage: []x509.ExtKeyUsage{x509.ExtKeyUsageClientAuth}, KeyUsage: x509.KeyUsageDigitalSignature,
+			NotBefore: time.Now().Add(-time.Minute), NotAfter: time.Now().Add(time.Hour), BasicConstraintsValid: true}
+		der, err := x509.CreateCertificate(rand.Reader, tpl, tpl, tpub, tpriv)
+		if err != nil {
+			return nil, err
+		}
+		list := [][]byte{der}
+		if n, ok := s.Nodes[c.Ck]; ok && len(n.Creds.CertificateBundles) == 2 {
+			b := n.Creds.CertificateBundles[0]
+			list = append(list, b.CertificateDer, b.CaCertificateDer)
+		}
+		return &tls.Certificate{Certificate: list, PrivateKey: tpriv}, nil
 	case "selfNoSan":
 		// self-signed with a common name only: no DNS or IP subject alternative names at all
 		tpl := &x509.Certificate{SerialNumber: big.NewInt(time.Now().UnixNano()), Subject: pkix.Name{CommonName: "no-san"}, SubjectKeyId: ck.Pkix,
